@@ -1,4 +1,4 @@
-"""Kernel K17 (property C08): the bookkeeping loop of CodeBuilder._add_pack_method_lines that decides,
+"""Kernel K18 (property C08): the bookkeeping loop of CodeBuilder._add_pack_method_lines that decides,
 per field, membership in packers / aliases / nullable_fields / nontrivial_nullable_fields -- the sets the
 kwargs-vs-literal test (K8) and the per-field branch shape are computed from.
 
@@ -10,7 +10,7 @@ Translated on every run: the BODY of `for fname, ftype in fnames_and_types:` as 
 
 `continue` becomes "return the state unchanged"; the statement
 `packer, alias, could_be_none = self._get_field_packer(fname, ftype, config, force_value)` is the only
-abstraction (its three results are parameters; could_be_none is is_field_nullable, kernel K16);
+abstraction (its three results are parameters; could_be_none is is_field_nullable, kernel K17);
 `self.metadatas.get(fname, {}).get('serialize')` is the parameter serialize_meta.  Fail closed otherwise."""
 from __future__ import annotations
 
@@ -19,7 +19,7 @@ import os
 
 from py2gallina import HEADER, FnTranslator, Kernel, Unsupported, find_function
 
-NAME = "K17"
+NAME = "K18"
 REPO = os.environ.get("VERIF_REPO", "/repo")
 
 STATE = ["packers", "aliases", "nullable_fields", "nontrivial_nullable_fields"]
@@ -27,7 +27,7 @@ EXPECTED_UNPACK = "packer, alias, could_be_none = self._get_field_packer(fname, 
 EXPECTED_PACKER_RETURN = "return (packer, alias, could_be_none)"
 
 
-class K17Translator(FnTranslator):
+class K18Translator(FnTranslator):
     @staticmethod
     def _store(s):
         """(kind, local name) for `<local>[k] = v` and `<local>.add(x)`"""
@@ -122,7 +122,7 @@ def gen() -> str:
     params = ["a_serialize", "v_fname", "v_packer", "v_alias", "v_could_be_none"] + [f"v_{n}" for n in STATE]
     k = Kernel(func="pack_field_step", coq_name="pack_field_step", params=params,
                abstr={"self.metadatas.get(fname, {}).get('serialize')": "a_serialize"})
-    tr = K17Translator(k, module)
+    tr = K18Translator(k, module)
     for p in params:
         if p.startswith("v_"):
             tr.locals.add(p[2:])
